@@ -467,9 +467,14 @@ def run(tier):
                 mine_ok = False
             if mine_ok and any(v for v in op.values()):
                 solver_rejected += 1
+                # cvc5 insists that characters outside printable ASCII are written as \u{..} escapes: that is the
+                # open finding `string-literal-escape` (string constants are written verbatim), not a new one
+                skey = "solver-rejects:%s" % str(tocoq.skey(f))[:160]
+                if all((not v) or ("Extended/unprintable characters" in str(v)) for v in op.values()):
+                    skey = "string-literal-escape"
                 chk.violation({"kind": "input", "what": "a solver binary rejects text that smtread.py accepts", "solvers": op,
                                "repro": texts["dag"][:1500], "formula": f.serialize()[:300]},
-                              key="solver-rejects:%s" % str(tocoq.skey(f))[:160])
+                              key=skey)
         # ---- correspondence case
         try:
             tt, dt, same = impl_texts(f)
